@@ -1,5 +1,6 @@
 import Autd3.Drv.C09
 import Autd3.Drv.Fw
+import Autd3.Drv.C18
 /-! `autd3model <stream>`: one request line in, one answer line out. -/
 
 partial def loop {σ : Type} (h : IO.FS.Stream) (out : IO.FS.Stream) (step : σ → String → σ × String) (s : σ) : IO Unit := do
@@ -14,6 +15,7 @@ def main (args : List String) : IO UInt32 := do
   let stdout ← IO.getStdout
   match args with
   | ["silencer"] => loop stdin stdout Autd3.Drv.C09.step Autd3.Drv.C09.init; return 0
+  | ["pbcodec"] => loop stdin stdout Autd3.Drv.C18.step Autd3.Drv.C18.init; return 0
   | [s] =>
     if s.startsWith "fw_" then do loop stdin stdout Autd3.Drv.FwS.step Autd3.Drv.FwS.init; return 0
     else do IO.eprintln "unknown stream"; return 2
